@@ -11,6 +11,8 @@ from checks import issuance_common as ic
 
 
 def run(ctx):
+    if ctx.thorough:
+        ctx.prove("IssuanceProofs")   # unbounded (TLAPS): accepted => honest content under the pinned key; tokens ignore the blind; verify-exact
     ic.model_check(ctx, liveness=True)
     n, cases, kinds = ic.run(ctx, "C01", ["honest"])
     return ctx.finish({
